@@ -90,7 +90,15 @@ class JaqalLexer(Lexer):
         return token
 
     def NUMBER(self, token):
-        token.value = float(token.value)
+        value = float(token.value)
+        if value in (float("inf"), float("-inf")):
+            # A literal beyond the range of a float would become an infinite
+            # angle, count or size and fail later in arbitrary ways.
+            col = token.index - self.text.rfind("\n", 0, token.index)
+            raise JaqalParseError(
+                "<string>", self.lineno, col, f"Number {token.value} is out of range"
+            )
+        token.value = value
         return token
 
     def BININT(self, token):
